@@ -499,8 +499,18 @@ impl<T> Drop for Arc<T> {
         let t = &mut arcs().strong[class_of_size(core::mem::size_of::<T>())];
         if t[id] > 0 {
             t[id] -= 1;
+            // opt-in teardown (lock-lifetime harness only): run the value's drop glue when the last
+            // strong reference goes away; everywhere else the value is leaked, see module doc
+            if t[id] == 0 && unsafe { ARC_TEARDOWN } {
+                unsafe { core::ptr::drop_in_place(&mut (*(self.ptr as *mut ArcInner<T>)).value) };
+            }
         }
     }
+}
+static mut ARC_TEARDOWN: bool = false;
+/// Harness switch: drop the pointee when the last strong reference is dropped (default: leak).
+pub fn set_arc_teardown(on: bool) {
+    unsafe { ARC_TEARDOWN = on };
 }
 impl<T> Deref for Arc<T> {
     type Target = T;
